@@ -311,6 +311,7 @@ func runPipeCLabelled(label string, cseed uint64) string {
 		ks = "ks"
 	}
 	g := newGate(ks, 0)
+	g.cerr = cerrSel(int(cseed % 3)) // the close-error fault of the transports (all / odd ids / none)
 	g.auto[1] = true
 	fr := vh.NewRng(cseed*977 + 5)
 	var fmu sync.Mutex
